@@ -51,7 +51,8 @@ def gen(rng, tier, index):
     while True:
         desc, a = pargen.gen_desc(
             rng, max_n=7, min_n=1, max_up=2, max_down=1, falsy_p=0.12, batched_p=0.5,
-            source_kind='user' if user_src else None,
+            source_kind='user' if (user_src and rng.random() < 0.3) else None,
+            user_stage_p=1.0 if user_src else 0.0,
             par_kw=dict(backends=backends, max_extra_b=2, catch_p=0.45))
         pi = pargen.par_index(desc)
         # batch(drop_last=True) makes sequential *iteration* evaluate tail
@@ -75,8 +76,10 @@ def gen(rng, tier, index):
     if user_src and (pst_['op'] == 'parmap' or not pargen.is_pool(pst_)):
         # setting up the iteration over the user's dataset fails: iter() itself raises
         # (a multi-worker prefetch evaluates by index and never iterates its input)
+        # (not StopIteration: raised by a plain iter() call it arrives as itself,
+        # raised inside the library's generators as RuntimeError - PEP 479)
         plans = [[{'stage': 'src_iter', 'pos': 0, 'exc': k_}] for k_ in
-                 rng.sample(KINDS, 3)] + plans[:4]
+                 rng.sample([k for k in KINDS if k != 'stopiter'], 3)] + plans[:4]
     cases = []
     for plan in plans:
         cases.append({
